@@ -63,8 +63,13 @@ def rand_string_const(rng, maxlen=8):
             out.append('\\n')
         else:
             out.append(rng.choice(STR_CHARS))
-    if rng.random() < 0.15:
+    r = rng.random()
+    if r < 0.15:
         out.append('\\\\')          # a string ending in an escaped backslash: the next quote closes it
+    elif r < 0.27:
+        out.append(rand_alignment(rng))   # content that looks like an alignment right before the closing quote ("http://x/~3")
+    elif r < 0.32:
+        out.append(rng.choice(['~', '~e.', '~~1', ' ~2', '/~e.1,2']))
     out.append('"')
     return ''.join(out)
 
